@@ -200,6 +200,9 @@ def _send_loop(ctx, ntmod, wsdimpl, frandom):
                 sent2.append(clock['now'])
             else:
                 sent.append(clock['now'])
+            if holder.get('after_first_send'):
+                hook, holder['after_first_send'] = holder['after_first_send'], None
+                hook()
 
     class _Sel:
         def select(self, timeout=None):  # noqa: ARG002
@@ -305,6 +308,49 @@ def _send_loop(ctx, ntmod, wsdimpl, frandom):
                         if late2 or early2:
                             ctx.violation(f'send-loop/second-message-not-sent-at-its-scheduled-times/{name}',
                                           {'case': key, 'late': late2, 'early': early2}, case={'kind': 'send-loop'})
+        # environment fault: the communication log (a DirectoryLogger with log_out) cannot be written any more after the first
+        # transmission (folder removed): logging is a side channel, all 1 + repeat copies still have to leave
+        import logging
+        import shutil
+        import tempfile
+        from sdc11073 import commlog
+        for name, params in (('unicast', ntmod.UNICAST_REPEAT_PARAMS), ('multicast', ntmod.MULTICAST_REPEAT_PARAMS)):
+            frandom.fixed = lambda kind, a, b, step=1: a
+            folder = tempfile.mkdtemp(prefix='verif_c15_')
+            nt = _mk_nt(ntmod, wsd)
+            holder.update(nt=nt, params=params, id2=None, schedule2=None)
+            nt._outbound_selector = _Sel()
+            clock['now'] = NOW
+            clock['enqueue_at'] = None
+            del sent[:]
+            nt.add_outbound_message(_mk_message(wsdimpl), '239.255.255.250', 3702, params)
+            clock['stop_at'] = NOW + 20.0
+            died = None
+            logger = commlog.DirectoryLogger(folder, log_out=True)
+            logging.disable(logging.NOTSET)
+            old_raise, logging.raiseExceptions = logging.raiseExceptions, False     # no traceback print of the logging module
+            try:
+                logger.start()
+                holder['after_first_send'] = lambda folder=folder: shutil.rmtree(folder, ignore_errors=True)
+                nt._run_send()
+            except Exception as ex:  # noqa: BLE001
+                died = repr(ex)[:200]
+            finally:
+                holder['after_first_send'] = None
+                logging.raiseExceptions = old_raise
+                logging.disable(logging.CRITICAL)
+                logger.stop()
+                shutil.rmtree(folder, ignore_errors=True)
+            ctx.transition(len(sent))
+            ctx.trace()
+            ctx.evals()
+            ctx.add('states')
+            ctx.nontrivial(('send-loop-log-fault', name, len(sent)))
+            ctx.outcome(f'send-loop-with-failing-communication-log:{name}:sent={len(sent)}')
+            if died is not None or len(sent) != 1 + params.repeat:
+                ctx.violation(f'send-loop/transmissions-lost-when-the-communication-log-fails/{name}',
+                              {'sent': len(sent), 'expected': 1 + params.repeat, 'send_loop_ended_with': died},
+                              case={'kind': 'send-loop'})
     finally:
         ntmod.time = old_time
         frandom.fixed = None
